@@ -1047,6 +1047,12 @@ impl FinishedSession {
 
         {
             let mut shared = nomt.shared.lock();
+            if !self
+                .parent_overlay
+                .parent_matches_marker(shared.last_commit_marker.as_ref())
+            {
+                anyhow::bail!("Overlay parent not committed");
+            }
             if shared.root != self.prev_root
                 || self
                     .base_commit_count
@@ -1109,6 +1115,12 @@ impl FinishedSession {
         // The root cannot change while the write guard is held.
         {
             let shared = nomt.shared.lock();
+            if !self
+                .parent_overlay
+                .parent_matches_marker(shared.last_commit_marker.as_ref())
+            {
+                anyhow::bail!("Overlay parent not committed");
+            }
             if shared.root != self.prev_root
                 || self
                     .base_commit_count
@@ -1138,6 +1150,12 @@ impl FinishedSession {
 
         {
             let mut shared = nomt.shared.lock();
+            if !self
+                .parent_overlay
+                .parent_matches_marker(shared.last_commit_marker.as_ref())
+            {
+                anyhow::bail!("Overlay parent not committed");
+            }
             if shared.root != self.prev_root
                 || self
                     .base_commit_count
